@@ -87,18 +87,18 @@ Proof.
 Qed.
 Print Assumptions C05_disconnect_partial.
 
-(** PARTIAL: C05_no_use_after_close, for every history and backend, for every File method except Renamed:
-    in the backend call log (newest first) no call to the left of a Close uses the closed handle - as
-    the File it is invoked on or as a File argument (Link target, RenameAt directory).  Missing: the
-    Renamed notifications ([uses (BRenamed ..) = []]): that the fidRefs notifyNameChange finds registered
-    in the path tree are live is part of the tree invariant (C08_tree_inv), which is not proved. *)
-Theorem C05_no_use_after_close_partial : forall B bstep ops (b : B) l1 h l2 c,
+(** C05_no_use_after_close, for every history and backend, for every File method: in the backend call
+    log (newest first) no call to the left of a Close uses the closed handle - as the File it is invoked
+    on or as a File argument (Link target, RenameAt directory, Renamed parent).  [uses] lists both.
+    (Renamed notifications are covered since 9811ebc: notifyNameChange holds a reference on every fidRef
+    it notifies and skips those being destroyed.) *)
+Theorem C05_no_use_after_close : forall B bstep ops (b : B) l1 h l2 c,
   s_log B (snd (run B bstep ops (init_state B b))) = l1 ++ BClose h :: l2 -> In c l1 -> ~ In h (uses c).
 Proof.
   intros B bstep ops b l1 h l2 c E. destruct (history_life B bstep ops b) as (_ & _ & W & _). rewrite E in W.
   exact (wf_log_no_use_after_close l1 h l2 c W).
 Qed.
-Print Assumptions C05_no_use_after_close_partial.
+Print Assumptions C05_no_use_after_close.
 
 (** C05_error_paths for Twalk / Twalkgetattr, after every history and for every backend: a walk that fails -
     at whatever component (zero-name clone included) and for whatever reason: backend error at any of its
